@@ -434,7 +434,8 @@ func (p *pkg) canon(fd *ast.FuncDecl, e ast.Expr, depth int) string {
 
 var universe = map[string]bool{"len": true, "cap": true, "int": true, "int8": true, "int16": true, "int32": true, "int64": true,
 	"uint": true, "uint8": true, "uint16": true, "uint32": true, "uint64": true, "uintptr": true, "byte": true, "rune": true,
-	"float32": true, "float64": true, "true": true, "false": true, "nil": true, "min": true, "max": true, "string": true, "bool": true}
+	"float32": true, "float64": true, "true": true, "false": true, "nil": true, "min": true, "max": true, "string": true, "bool": true,
+	"append": true, "make": true, "new": true, "copy": true, "delete": true, "error": true, "any": true, "iota": true}
 
 // external: the expression (locals defined once resolved) mentions something that is neither a local nor a
 // predeclared name — a package-level variable / function or another package.
@@ -945,6 +946,71 @@ func main() {
 		return ok && src(wallet.fset, s) == "common.CFG.AllBalances.MinValue"
 	}))
 
+	// ---- 6b. EVERYTHING the conditions on the callbacks' paths depend on (not only ordered comparisons): every if / for /
+	// range / switch / case condition in the closure of the callback, in the canonical form of guards.go (paths rooted in
+	// the type of the parameter they start from, locals = every write + the conditions around it, package variables by name
+	// or role, imported names as pkg.Name). A new test of node state (`common.BlockChainSynchronized`, a config field, a
+	// height) on the way to the index shows up here as a new element.
+	condDeps := func(entry string) []string {
+		g := newGuardCtx(wallet)
+		set := rootSet{}
+		for _, f := range wallet.clo(wallet.funcs[entry]) {
+			for _, c := range leaversAlways(f.Body) {
+				set.addAll(g.paths(c, 0))
+			}
+		}
+		// names imported from lib/... and the standard library with two components (`script.IsP2KH()`, `btc.OP_1`,
+		// `slices.Index()`) are functions / constants of those packages, applied to the record: a behaviour-preserving
+		// rewrite of the script classification changes them, and they are not state — dropped. Kept: this package's
+		// variables and functions, everything imported from client/... (node state, configuration), field paths
+		// (`utxo.UtxoRec.Outs.Value`: three or more components).
+		libPkg := map[string]bool{}
+		for _, f := range wallet.files {
+			for _, im := range f.Imports {
+				path := strings.Trim(im.Path.Value, "\"`")
+				n := filepath.Base(path)
+				if im.Name != nil {
+					n = im.Name.Name
+				}
+				if !strings.Contains(path, "/client/") {
+					libPkg[n] = true
+				}
+			}
+		}
+		out := map[string]bool{}
+		for k := range set.clean() {
+			parts := strings.Split(k, ".")
+			if len(parts) == 2 && libPkg[parts[0]] {
+				continue
+			}
+			out[k] = true
+		}
+		return sorted(out)
+	}
+	addConds, delConds := condDeps("TxNotifyAdd"), condDeps("TxNotifyDel")
+
+	// ---- 6c. what common.AllBalMinVal() RETURNS (with its unexported helpers inlined): must be the atomic load alone
+	common.alias = map[string]string{minVar: "<minVal>"}
+	getterReturns := map[string]bool{}
+	for _, gfn := range common.inl(getter) {
+		gfn := gfn
+		ast.Inspect(gfn.Body, func(n ast.Node) bool {
+			switch x := n.(type) {
+			case *ast.FuncLit:
+				getterReturns["<closure>"] = true
+			case *ast.ReturnStmt:
+				if len(x.Results) == 0 {
+					getterReturns["<named result>"] = true
+				}
+				for _, res := range x.Results {
+					getterReturns[common.canon(gfn, res, 0)] = true
+				}
+			}
+			return true
+		})
+	}
+	common.alias = nil
+
 	// ---- 7. searches that ASSUME A SORTED slice on the path of the removing callback (standard library: slices.BinarySearch*,
 	// sort.Search*, sort.Find). The entry lists of the index carry no order: a record restored from the balances cache holds
 	// its entries in file order = Go's map iteration order (model: Ev.reload / relayout); the model finds the entry to remove
@@ -999,6 +1065,9 @@ func main() {
 	def("the same for wallet.TxNotifyDel", "delPathComparesWith", "List String", leanList(delThs))
 	def("wallet.TxNotifyAdd's path calls common.AllBalMinVal() (the value in force)", "addPathReadsInForce", "Bool", fmt.Sprint(addInForce))
 	def("wallet.TxNotifyDel's path calls common.AllBalMinVal() (the value in force)", "delPathReadsInForce", "Bool", fmt.Sprint(delInForce))
+	def("what the conditions (if / for / range / switch / case, any operator) in wallet.TxNotifyAdd and what it calls in the package depend on: field paths rooted in the type of the parameter they start from, this package's variables / functions, names imported from client/... (functions and constants of lib/... and the standard library are not listed)", "addPathConditionsDependOn", "List String", leanList(addConds))
+	def("the same for wallet.TxNotifyDel", "delPathConditionsDependOn", "List String", leanList(delConds))
+	def("the expressions common.AllBalMinVal() returns (helpers inlined; <minVal> = the variable ApplyBalMinVal stores)", "minValGetterReturns", "List String", leanList(sorted(getterReturns)))
 	def("entry points of client/wallet reading common.CFG.AllBalances.MinValue directly", "walletReadsCfgMinValue", "List String", leanList(direct))
 	def("entry points of client/wallet assigning the wallet's copy of CFG.AllBalances.UseMapCnt", "useMapCntWriters", "List String", leanList(umWriters))
 	def("the expressions assigned to it", "useMapCntSources", "List String", leanList(umSources))
